@@ -223,7 +223,13 @@ func (r *renderer) flowCall(decl *strings.Builder) string {
 		case tok == "P":
 			var vs []string
 			for j, ti := range f.Params {
-				vs = append(vs, r.tr(MkExpr(f.Types[ti], ti, fmt.Sprintf("in.Param(%d)", j))))
+				h := fmt.Sprintf("in.Param(%d)", j)
+				if j == 0 {
+					for _, sh := range p.F.Shadow {
+						h += "+" + sh
+					}
+				}
+				vs = append(vs, r.tr(MkExpr(f.Types[ti], ti, h)))
 			}
 			opts = append(opts, c+".Params("+strings.Join(vs, ", ")+")")
 		case tok == "R":
@@ -346,7 +352,11 @@ func (r *renderer) parCall(decl *strings.Builder) string {
 	var opts []string
 	if par.Conc != "" {
 		if par.Conc == "expr" {
-			opts = append(opts, c+".Concurrency("+r.tr("in.N")+")")
+			n := "in.N"
+			for _, sh := range p.F.Shadow {
+				n += "+int(" + sh + ")"
+			}
+			opts = append(opts, c+".Concurrency("+r.tr(n)+")")
 		} else {
 			opts = append(opts, c+".Concurrency("+r.tr(par.Conc)+")")
 		}
@@ -418,6 +428,11 @@ func (r *renderer) parCall(decl *strings.Builder) string {
 // Render returns the cff-tagged Go source of program p in package pkg.
 // modPath is the import path prefix of the generated module.
 func Render(p *Program, pkg, modPath string) string {
+	if p.Raw != "" {
+		s := strings.ReplaceAll(p.Raw, "PKG", pkg)
+		s = strings.ReplaceAll(s, "MOD", modPath)
+		return strings.ReplaceAll(s, "ID", p.ID)
+	}
 	r := &renderer{p: p, ctxN: "context", cffN: "cff", needs: map[string]bool{}}
 	if p.F.CtxAlias != "" {
 		r.ctxN = p.F.CtxAlias
@@ -482,7 +497,7 @@ func Render(p *Program, pkg, modPath string) string {
 	}
 	shadow := func(b *strings.Builder) {
 		for _, s := range p.F.Shadow {
-			fmt.Fprintf(b, "\t%s := %q\n\t_ = %s\n", s, "shadow-"+s, s)
+			fmt.Fprintf(b, "\t%s := uint64(0)\n\t_ = %s\n", s, s)
 		}
 	}
 	fmt.Fprintf(&b, "func run_%s(in *probe.In) *probe.Out {\n\tout := &probe.Out{}\n", p.ID)
